@@ -248,23 +248,40 @@ def d15_6(ctx):
         c = ctx.model.cls(k)
         v = ctx.folder.class_attr(c, "_auto_slot_cip_path")
         ctx.check(v is w, ckey(c.key, "_auto_slot_cip_path"), c.attr_nodes.get("_auto_slot_cip_path", c.node), f"{c.name}._auto_slot_cip_path = {w}", f"{c.name}._auto_slot_cip_path is {v!r}; documented behaviour is {w}", got=v)
+    # the constructor parses the path with the driver's own shortcut flag and stores host, port (default 44818) and route from the
+    # parser's result: folded on witness parser results (an earlier form compared the names of the unpacked locals)
+    from ..miniinterp import Obj, run_function
+
     drv = ctx.model.cls(f"{CD}:CIPDriver")
     init = drv.methods["__init__"]
-    calls = [c for c in walk(init) if isinstance(c, ast.Call) and call_name(c) == "parse_connection_path"]
-    good = len(calls) == 1 and atom_name(calls[0].args[0]) == init.args.args[1].arg and len(calls[0].args) == 2 and attr_path(calls[0].args[1]) == "self._auto_slot_cip_path"
-    ctx.check(good, ckey(drv.key + ".__init__", "parser-call"), init, "parse_connection_path(path, self._auto_slot_cip_path)", "the constructor does not parse the path with the driver's shortcut flag")
-    tgt = None
-    for n in walk(init):
-        if isinstance(n, ast.Assign) and calls and n.value is calls[0] and isinstance(n.targets[0], ast.Tuple):
-            tgt = [atom_name(x) for x in n.targets[0].elts]
-    used = {}
-    for n in walk(init):
-        if isinstance(n, ast.Dict):
-            for k, v in zip(n.keys, n.values):
-                if k is not None:
-                    used[ctx.folder.eval(k, drv.module)] = src(v)
-    good = tgt is not None and len(tgt) == 3 and used.get("ip address") == tgt[0] and used.get("cip_path") == tgt[2] and used.get("port", "").replace(" ", "") == f"{tgt[1]}or44818"
-    ctx.check(good, ckey(drv.key + ".__init__", "cfg"), init, "host, port (default 44818) and route are stored from the parser's result", "the parsed host/port/route are not what the driver stores", targets=tgt)
+    for label, port, want_port in (("no port in the path", None, 44818), ("port 5000 in the path", 5000, 5000), ("port 44818 in the path", 44818, 44818)):
+        seen = []
+
+        def hook(call, env, it, seen=seen, port=port):
+            n = call_name(call) or ""
+            if n == "parse_connection_path" and isinstance(call.func, ast.Name):
+                seen.append(tuple(it.ev(a, env) for a in call.args) + tuple(sorted((k.arg, it.ev(k.value, env)) for k in call.keywords)))
+                return ("10.1.2.3", port, ["<segment>"])
+            if n == "cycle":
+                return Obj(kind="sequence")
+            return UNKNOWN
+
+        me = Obj(_ci=drv, _auto_slot_cip_path="<flag>")
+        env = {"self": me, init.args.args[1].arg: "10.1.2.3/bp/1"}
+        if init.args.vararg:
+            env[init.args.vararg.arg] = ()
+        if init.args.kwarg:
+            env[init.args.kwarg.arg] = {}
+        kind, res = run_function(ctx, drv.module, init, env, call_hook=hook, deep=False)
+        key = ckey(drv.key + ".__init__", f"cfg:{label}")
+        if kind == "unknown":
+            ctx.undecided(key, init, f"CIPDriver.__init__ not foldable ({label}): {res}")
+            continue
+        cfg = me.__dict__.get("_cfg") if isinstance(me.__dict__.get("_cfg"), dict) else {}
+        called = seen == [("10.1.2.3/bp/1", "<flag>")] or seen == [("10.1.2.3/bp/1", ("auto_slot", "<flag>"))]
+        good = kind == "return" and called and cfg.get("ip address") == "10.1.2.3" and cfg.get("port") == want_port and cfg.get("cip_path") == ["<segment>"]
+        ctx.check(good, key, init, f"{label}: parser called with the path and the driver's flag; host, port {want_port} and route stored",
+                  f"CIPDriver.__init__ ({label}): parser calls {seen!r}; stored host {cfg.get('ip address')!r}, port {cfg.get('port')!r}, route {cfg.get('cip_path')!r}; expected the parser's host, port {want_port} and route", witness=label)
 
 
 # "yields the stated route": the route bytes are what PortSegment._encode emits for the parsed (port, link) pairs - the
